@@ -45,7 +45,7 @@ import (
 
 var (
 	dataAttribute             = regexp.MustCompile("^data-.+")
-	dataAttributeXMLPrefix    = regexp.MustCompile("^xml.+")
+	dataAttributeXMLPrefix    = regexp.MustCompile("^xml")
 	dataAttributeInvalidChars = regexp.MustCompile("[A-Z;]+")
 	cssUnicodeChar            = regexp.MustCompile(`\\[0-9a-f]{1,6} ?`)
 	dataURIbase64Prefix       = regexp.MustCompile(`^data:[^,]*;base64,`)
